@@ -1375,9 +1375,21 @@ class SpanElement(ContentElement):
 
   ruby_attribute_qn = f"{{{xml_ns.TTS}}}ruby"
 
+  _RUBY_VALUES = ("container", "base", "baseContainer", "text", "textContainer", "delimiter")
+
   @staticmethod
   def is_instance(xml_elem):
-    return xml_elem.tag == SpanElement.qn and SpanElement.get_ruby_attr(xml_elem) is None
+    if xml_elem.tag != SpanElement.qn:
+      return False
+
+    ruby_attr = SpanElement.get_ruby_attr(xml_elem)
+
+    if ruby_attr is not None and ruby_attr != "none" and ruby_attr not in SpanElement._RUBY_VALUES:
+      LOGGER.error("Unknown tts:ruby value: %s", ruby_attr)
+
+    # a span with tts:ruby equal to none (the initial value) or to an unknown value is an ordinary span
+
+    return ruby_attr not in SpanElement._RUBY_VALUES
 
   @staticmethod
   def get_ruby_attr(ttml_span):
